@@ -311,7 +311,22 @@ def _scan(repo, col, R="R-C06-scan"):
     fi = repo.func(JU, "nested_checkpoint_scan")
     ex = idx.expander(repo, fi)
     # the function mapped over the inputs (whatever it is called): reshape to (*nested_lengths, *x.shape[1:]) in C order
-    rr0 = ex.returns[0] if ex.returns else None
+    # every way out of nested_checkpoint_scan goes through the recursion (and so through lax.scan): the body `f` advances the
+    # state dictionary it receives IN PLACE (Module.step); under lax.scan it only ever sees the tracer copy, called directly it
+    # would advance the caller's own `all_states` (and eager and jit would differ)
+    main = None
+    for r_ in ex.returns:
+        thru = r_.op == "call" and r_.name == "_inner_nested_scan"
+        direct = T.find(r_, lambda x: (x.op == "callv" and x.args and x.args[0].op == "param" and x.args[0].name == "f") or
+                        (x.op == "call" and x.name == "f")) is not None
+        col.check(thru and not direct, R, fi, "every result of nested_checkpoint_scan comes from the scan recursion", "_inner_nested_scan(f, init, xs, lengths)",
+                  f"a result is computed as `{r_.short(100)}`"
+                  + (": the body is called directly, outside lax.scan; Module.step updates the state dictionary it is given in place, so the "
+                     "caller's own states are advanced (the same call repeated gives different results, jit and eager differ)" if direct else
+                     ", not by the scan recursion"), node=r_.node or fi.node)
+        if thru and main is None:
+            main = r_
+    rr0 = main
     tm = T.find(rr0, lambda x: x.op == "mcall" and x.name == "tree_map") if rr0 is not None else None
     nr = ex.nested.get(tm.args[1].name) if tm is not None and len(tm.args) > 1 and tm.args[1].op == "localfn" else None
     if nr is None:
@@ -355,7 +370,7 @@ def _scan(repo, col, R="R-C06-scan"):
              T.find(ex.term(x.test), lambda y: y.op == "cmp" and y.name in ("!=", "<", ">") and
                     T.find(y, lambda z: z.op in ("call", "mcall") and z.name == "prod") is not None) is not None for x in g)
     col.check(ok, R, fi, "length != prod(nested_lengths) is refused", "raise ValueError", "the length guard was removed", node=fi.node)
-    rr = ex.returns[0] if ex.returns else None
+    rr = main
     ok = rr is not None and rr.op == "call" and rr.name == "_inner_nested_scan" and len(rr.args) >= 4 and \
         rr.args[0].op == "param" and rr.args[0].name == "f" and rr.args[1].op == "param" and rr.args[1].name == "init" and \
         T.find(rr.args[2], lambda x: x.op == "mcall" and x.name == "tree_map") is not None and \
